@@ -16,7 +16,7 @@ from symx import vloop
 from symx.run import Check, Harness
 
 PHASES = ("idle", "in-flight", "awaiting-response", "queued", "reset-in-progress", "reset-just-acked")
-KINDS = ("error", "rstack", "silent", "lost-exc", "eof", "close")
+KINDS = ("error", "rstack", "silent", "silent-caller-cancelled", "nak-then-silent", "lost-exc", "eof", "close")
 ERR_CODES = (0x51, 0x52, 0x00, 0x02, 0x53, 0xFF)
 RST_CODES = (0x00, 0x01, 0x02, 0x03, 0x06, 0x09, 0x0C, 0x51, 0x81, 0xFF)
 ALL_CODES = tuple(x for x in range(256) if x != 0x0B)
@@ -25,20 +25,23 @@ T_BOUND = 10.0 + 1.6 + 4 * 3.2 + 1.0  # command timeout + the link's acknowledge
 
 class Failure(Harness):
     name = "c10_failure"
-    must_reach = ("error", "rstack", "silent", "lost-exc", "eof", "close", "in-progress-ended", "queued-ended")
+    must_reach = ("error", "rstack", "silent", "silent-caller-cancelled", "nak-then-silent", "lost-exc", "eof", "close", "in-progress-ended", "queued-ended")
     functions = ("AshProtocol.error_frame_received", "AshProtocol._enter_failed_state", "AshProtocol.connection_lost", "AshProtocol.eof_received",
                  "AshProtocol._write_frame", "Gateway.reset_received", "Gateway.connection_lost", "Gateway.eof_received", "Gateway.close",
                  "EZSP.enter_failed_state", "EZSP.connection_lost", "EZSP.close", "EZSP._command", "EZSP.stop_ezsp", "ProtocolHandler.command")
 
     def must_reach_for(self, params):
         ph = params.get("phases", PHASES)
-        return [m for m in self.must_reach if m != "queued-ended" or "queued" in ph]
+        return [m for m in self.must_reach if (m != "queued-ended" or "queued" in ph) and (m != "silent-caller-cancelled" or "idle" in ph or "in-flight" in ph)]
 
     def run(self, ctx, versions=(4, 8, 13), codes="boundary", phases=PHASES):
         err_codes, rst_codes = (ERR_CODES, RST_CODES) if codes == "boundary" else (ALL_CODES, ALL_CODES)
         V = versions[ctx.choice("version", len(versions))]
         phase = phases[ctx.choice("phase", len(phases))]
         kind = KINDS[ctx.choice("kind", len(KINDS))]
+        if kind == "silent-caller-cancelled":
+            # only where the cancelled caller's command is really the one on the dead line
+            ctx.require(phase in ("idle", "in-flight"))
         code = None
         if kind == "error":
             code = err_codes[ctx.choice("code", len(err_codes))]
@@ -61,8 +64,26 @@ class Failure(Harness):
                     st.wire.sink["n"](bytes(R.wire(R.error_frame(code))))
                 elif kind == "rstack":
                     st.wire.sink["n"](bytes(R.wire(R.rstack_frame(code))))
-                elif kind == "silent":
+                elif kind in ("silent", "silent-caller-cancelled"):
                     st.wire.cut = True
+                elif kind == "nak-then-silent":
+                    # the NCP rejects the next DATA frame it sees with one NAK and then falls silent
+                    st.wire.cut = True
+                    armed = [True]
+                    prev = st.transport.on_write
+
+                    def on_write(data):
+                        prev(data)
+                        bs = list(data)
+                        try:
+                            fr = R.decode(R.unstuff(bs[:-1]))
+                        except R.Bad:
+                            return
+                        if armed[0] and fr[0] == "DATA":
+                            armed[0] = False
+                            loop.call_later(0.01, st._to_host, bytes(R.wire(R.nak_frame(fr[1]))))
+
+                    st.transport.on_write = on_write
                 elif kind == "lost-exc":
                     st.ash.connection_lost(exc)
                 elif kind == "eof":
@@ -99,14 +120,17 @@ class Failure(Harness):
                 loop.call_at(at - 0.002, lambda: inflight.append(loop.create_task(outcome(ez.reset()))))
             if phase != "reset-just-acked":
                 loop.call_at(at, inject)
-            if kind == "silent":
+            if kind in ("silent", "silent-caller-cancelled", "nak-then-silent"):
                 # a silent NCP is only noticed by traffic: one more command after the line died
                 loop.call_at(at + 1.0, lambda: inflight.append(loop.create_task(outcome(ez.nop()))))
+            if kind == "silent-caller-cancelled":
+                # the caller of that command gives up early (its own timeout); the link must still notice the dead NCP
+                loop.call_at(at + 4.0, lambda: (inflight[0] if phase == "in-flight" else inflight[-1]).cancel())
             try:
                 await asyncio.sleep(0.5 + T_BOUND + 1.0 + 1.0)
             except vloop.Deadlock:
                 ctx.fail("the loop went idle forever", "hang")
-            t_fail = at + (1.0 if kind == "silent" else 0.0)
+            t_fail = at + (1.0 if kind in ("silent", "silent-caller-cancelled", "nak-then-silent") else 0.0)
             what = "v%d, %s, phase %s%s" % (V, kind, phase, "" if code is None else ", code 0x%02X" % code)
             ctx.label(kind)
             reqs = [c for c in app_calls if c[1][0] == "_reset_controller_application"]
@@ -121,6 +145,8 @@ class Failure(Harness):
             # every call in progress ended, in time
             for i, tk in enumerate(inflight):
                 ctx.check(tk.done(), "call %d in progress at the failure never ended (%s)" % (i, what), "call-hangs")
+                if tk.cancelled():
+                    continue
                 k, tend, _ = tk.result()
                 ctx.check(tend <= t_fail + T_BOUND, "call %d ended %.1f s after the failure (%s)" % (i, tend - t_fail, what), "call-late")
                 ctx.label("in-progress-ended")
@@ -146,7 +172,7 @@ class Failure(Harness):
                     except R.Bad:
                         pass
                 ctx.check(not data_late, "%d DATA frame(s) written to the port after the controller-reset request (%s)" % (len(data_late), what), "data-after-report")
-            ctx.observe(V, phase, kind, code, len(reqs), [tk.result()[0] for tk in inflight], r[0])
+            ctx.observe(V, phase, kind, code, len(reqs), ["cancelled" if tk.cancelled() else tk.result()[0] for tk in inflight], r[0])
 
         vloop.run(main)
 
@@ -158,7 +184,7 @@ def main(tier):
     c = Check("C10", tier)
     c.assumptions += [
         "full stack and NCP model of refs/fullstack.py; bring-up completed and one application callback registered before the failure",
-        "ERROR / RSTACK frames are reference-encoded and delivered as received serial bytes; 'silent' = the line stops delivering in both directions; loss / EOF are reported by the transport to AshProtocol",
+        "ERROR / RSTACK frames are reference-encoded and delivered as received serial bytes; 'silent' = the line stops delivering in both directions (variants: the caller of the command that meets the dead line is cancelled after 4 s; the NCP rejects one DATA frame with a NAK before falling silent); loss / EOF are reported by the transport to AshProtocol",
         "time bound for calls in progress: command timeout 10 s + acknowledgement timeouts 1.6 + 4 x 3.2 s (+1 s slack), reference constants",
         "ERROR frames with code 0x0B are excluded (C11's known finding)",
         "during the application's own reset call, that call raising counts as the report (a silent NCP makes Gateway.reset() time out)",
